@@ -11,7 +11,7 @@ pub fn prop() -> Prop {
     Prop {
         id: "C12",
         level: "model_checking",
-        rule: "observer bodies H (13: the bound name next to ., ^., ^^., ^^^., another variable, another macro, a selected name) x enclosing contexts X (9: top level, map, filter, fold, sort_by, map_values, pipe stage, pipe-then-map, flat_map) x binding forms F (18: set, define, --set variable, --set macro, nested both ways, shadowing an inner/outer/--set binding, unused names, a macro whose body reads a variable bound outside/inside, a macro reading ^) x placement (binding outside X / inside the functional argument) x bound values (4) x position 1..4 among --select options x with/without --split-by x 2 inputs; plus the same expression repeated in four --select positions; non-trivial = the body reads something the binding had to carry over (^, another binding, a selected name) or sits after --split-by / other selections; distinct by construction",
+        rule: "observer bodies H (13: the bound name next to ., ^., ^^., ^^^., another variable, another macro, a selected name) x enclosing contexts X (12: top level, map, filter, fold, sort_by, map_values, pipe stage, pipe-then-map, flat_map, pipes with a stage that returns its input unchanged) x binding forms F (18: set, define, --set variable, --set macro, nested both ways, shadowing an inner/outer/--set binding, unused names, a macro whose body reads a variable bound outside/inside, a macro reading ^) x placement (binding outside X / inside the functional argument) x bound values (4) x position 1..4 among --select options x with/without --split-by x 2 inputs; plus the same expression repeated in four --select positions; non-trivial = the body reads something the binding had to carry over (^, another binding, a selected name) or sits after --split-by / other selections; distinct by construction",
         explanation: "each case is one run with two selections: the bound form and the form obtained by substituting the bound value / macro body by hand; both must have the same value (differential, no model needed) and both are also compared with the reference evaluator",
         assumptions: COMMON_ASSUMPTIONS.to_vec(),
         guards: vec!["parent-read-under-a-binding", "other-variable-survives", "other-macro-survives", "selected-name-survives", "after-split", "shadowing", "macro-body-reads-outer-variable", "pipe-stage-parent", "later-select-sees-same-parents"],
@@ -84,7 +84,7 @@ fn forms(val: &'static str) -> Vec<Form> {
 
 const H_VAR: [&str; 8] = [":x", "(push [] . :x)", "(push [] ^. :x)", "(push [] ^^. :x)", "(push [] ^^^. :x)", "(push [] :other :x)", "(push [] @om :x)", "(push [] /s1/ :x)"];
 const H_MAC: [&str; 7] = ["@m", "(push [] . @m)", "(push [] ^.n @m)", "(push [] ^^. @m)", "(push [] :other @m)", "(push [] @om @m)", "(push [] /s1/ @m)"];
-const XS: [&str; 9] = [
+const XS: [&str; 12] = [
     ":HOLE",
     "(map .l :HOLE)",
     "(filter .l (= :HOLE :HOLE))",
@@ -94,11 +94,14 @@ const XS: [&str; 9] = [
     "(| .n :HOLE)",
     "(| .l (map . :HOLE))",
     "(flat_map .ll (map . :HOLE))",
+    "(| .n . :HOLE)",
+    "(| .l (default . 0) (map . :HOLE))",
+    "(map .l (| . (push [] . :HOLE)))",
 ];
 
 const INPUTS: [&str; 2] = [
     "{\"k\":\"a\",\"n\":2,\"l\":[1,2],\"o\":{\"p\":[3,4],\"q\":1},\"ll\":[[1],[2,3]]}",
-    "{\"k\":\"b\",\"n\":0,\"l\":[{\"n\":5},2,\"s\"],\"o\":{},\"ll\":[[],[0]]}",
+    "{\"k\":\"b\",\"n\":0,\"l\":[2,{\"n\":5},\"s\"],\"o\":{},\"ll\":[[],[0]]}",
 ];
 
 fn run(ctx: &mut Ctx) {
@@ -202,7 +205,7 @@ fn run(ctx: &mut Ctx) {
                                             if form.name == "define-in-set" || form.name == "set-in-define" {
                                                 ctx.guard("macro-body-reads-outer-variable");
                                             }
-                                            if xi == 6 || xi == 7 {
+                                            if xi == 6 || xi == 7 || xi >= 9 {
                                                 ctx.guard("pipe-stage-parent");
                                             }
                                         }
